@@ -14,10 +14,12 @@ Known findings handled through deviation models (DESIGN section 3):
 from __future__ import annotations
 
 import itertools
+import os
+import sys
 
 from .. import alpha as A
 from .. import refmodel as R
-from ..core import Partial
+from ..core import Partial, REPO
 from ..explore import bfs
 from .c01 import freeze, module_state
 
@@ -718,6 +720,140 @@ def forms_pool(quick):
     return out
 
 
+# --------------------------------------------------------------------------------------------
+# abort: a query interrupted at every possible point, then read back
+# --------------------------------------------------------------------------------------------
+# "Whatever was asked before" includes a query that did not finish: Ctrl-C during count(15), an
+# exception out of a caller's loop body.  Environment deviation, bound 1: for one query q on a
+# class (fresh, or warmed by an earlier query) and for EVERY k, an exception (a BaseException, like
+# KeyboardInterrupt) is raised at the k-th entry into a Python function of the package during q;
+# afterwards the class must answer every observer exactly (read-back against the reference) and
+# must not hang (a lock left held).  k runs up to the number of such entries of the undisturbed q.
+
+class _Abort(BaseException):
+    pass
+
+
+def _run_with_abort(fn, k, root):
+    """Run fn(); raise _Abort at the k-th 'call' event of a frame whose code lives under root
+    (k=None: never).  Returns (finished?, number of such events seen)."""
+    seen = [0]
+
+    def tracer(frame, event, arg):
+        if event == "call" and frame.f_code.co_filename.startswith(root):
+            seen[0] += 1
+            if seen[0] == k:
+                sys.settrace(None)
+                raise _Abort()
+        return None
+
+    sys.settrace(tracer)
+    try:
+        fn()
+        return True, seen[0]
+    except _Abort:
+        return False, seen[0]
+    finally:
+        sys.settrace(None)
+
+
+ABORT_QUERIES = (("count", 5), ("count", 4), ("list", 4), ("in", 4), ("upto", 3), ("first", 9), ("new", 0))
+
+
+def _abort_query(av, q, Perm):
+    kind, n = q
+    if kind == "count":
+        av.count(n)
+    elif kind == "list":
+        list(av.of_length(n))
+    elif kind == "in":
+        Perm(tuple(range(n))) in av          # noqa - the query is the point
+        Perm(tuple(reversed(range(n)))) in av  # noqa
+    elif kind == "upto":
+        list(av.up_to_length(n))
+    elif kind == "first":
+        list(av.first(n))
+
+
+def shard_abort(shard):
+    descs, warm, q, N = shard[:4]
+    part_i, nparts = shard[4:] if len(shard) > 4 else (0, 1)
+    import signal
+    Av, Perm = _lib()
+    part = Partial()
+    descs = [A.norm(d) for d in descs]
+    levels = ref_levels(descs, N)
+    exp_c = [len(lv) for lv in levels]
+    exp_l = [sorted(lv) for lv in levels]
+    root = os.path.join(os.path.abspath(REPO), "permuta") + os.sep
+
+    def fresh():
+        Av.clear_cache()
+        av = Av.from_iterable([A.mk(d) for d in descs])
+        if warm is not None:
+            av.count(warm)
+        return av
+
+    construct = q[0] == "new"      # the aborted operation is the construction of the class itself
+
+    def attempt(k):
+        if construct:
+            Av.clear_cache()
+            objs = [A.mk(d) for d in descs]
+            return None, _run_with_abort(lambda: Av.from_iterable(objs), k, root)
+        av0 = fresh()
+        return av0, _run_with_abort(lambda: _abort_query(av0, q, Perm), k, root)
+
+    _, (_, total) = attempt(None)
+
+    def on_alarm(signum, frame):
+        raise TimeoutError("read-back did not finish within 20 s")
+
+    old = signal.signal(signal.SIGALRM, on_alarm)
+    old_hook = sys.unraisablehook
+    # an injection that lands in the finalisation of an abandoned generator is reported by the
+    # interpreter as "Exception ignored in ..." - expected here, not worth a line on stderr
+    sys.unraisablehook = lambda unraisable: None
+    try:
+        for k in range(1 + part_i, total + 1, nparts):
+            case = {"basis": descs, "warm": warm, "query": list(q), "abort_at_call": k, "N": N}
+            av, (finished, _) = attempt(k)
+            signal.alarm(20)
+            try:
+                if av is None:
+                    av = Av.from_iterable([A.mk(d) for d in descs])
+                got_c = [av.count(n) for n in range(N + 1)]
+                got_l = [sorted(tuple(p) for p in av.of_length(n)) for n in range(N + 1)]
+                got_in = [sorted(p for p in R.perms(n) if Perm(p) in av) for n in range(min(N, 4) + 1)]
+                again = Av.from_iterable([A.mk(d) for d in descs])
+                got_c2 = [again.count(n) for n in range(N + 1)]
+            except TimeoutError as exc:
+                part.violation("abort", case, {"hang": str(exc)})
+                signal.alarm(0)
+                continue
+            except Exception as exc:  # noqa
+                signal.alarm(0)
+                part.violation("abort", case, {"exception_in_read_back": repr(exc)})
+                continue
+            signal.alarm(0)
+            part.add(1, 0 if finished else 1)
+            if got_c != exp_c or got_c2 != exp_c:
+                part.violation("abort", case, {"observer": "count", "expected": exp_c,
+                                               "got": got_c, "got_from_Av_again": got_c2})
+            elif got_l != exp_l:
+                n = next(i for i in range(N + 1) if got_l[i] != exp_l[i])
+                part.violation("abort", case, {"observer": "of_length(%d)" % n,
+                                               "expected": exp_l[n], "got": got_l[n]})
+            elif got_in != exp_l[:len(got_in)]:
+                part.violation("abort", case, {"observer": "in", "got": got_in})
+    finally:
+        signal.signal(signal.SIGALRM, old)
+        sys.unraisablehook = old_hook
+    if part_i == 0:
+        part.bump("abort_points", total)
+    return part
+
+
 def mesh_pool_small():
     """Pool for pairs: Mesh<=1 (all), length-2 shadings with <=1 or >=8 cells, all Biv/Vinc/Covinc of
     length <=1 and the single-requirement ones of length 2, classical S1..S3."""
@@ -818,6 +954,28 @@ def run(ctx, only=None):
         ctx.bounds["forms"] = {"ordered_lists": len(lists), "forms": list(FORMS),
                                "entries": list(ENTRIES), "levels": 4}
         ctx.section("forms", evaluations=ctx.evals - e0)
+    if want("abort"):
+        e0 = ctx.evals
+        ab_bases = [[("c", (0, 1, 2))], [("c", (0, 2, 1)), ("c", (0, 1, 2, 3))],
+                    [("c", (0, 1, 2)), ("c", (1, 0))], [("m", (0, 1), ((1, 1),))],
+                    [("m", (1, 0), ((0, 0), (2, 2))), ("c", (0, 1, 2))]]
+        if not quick:
+            ab_bases += [[("c", (1, 2, 0)), ("c", (2, 0, 1))], [("v", (0, 1, 2), (1,))],
+                         [("c", (1, 3, 0, 2)), ("c", (2, 0, 3, 1))]]
+        NP = 4
+        # first(k) on a mesh class with one member per length would need level k: keep it shallow
+        shards = [(b, warm, (("first", 3) if q[0] == "first" and any(A.is_mesh(d) for d in b) else q),
+                   5, i, NP) for b in ab_bases for warm in (None, 3)
+                  for q in (ABORT_QUERIES[1:] if quick else ABORT_QUERIES) for i in range(NP)]
+        ctx.pmap(shard_abort, shards)
+        ctx.bounds["abort"] = {"bases": len(ab_bases), "queries": [list(q) for q in ABORT_QUERIES],
+                               "start_states": ["fresh", "count(3) asked before"],
+                               "injection": "exception at the k-th entry into a Python function of the "
+                                            "package during the query, every k",
+                               "read_back_levels": 5,
+                               "injection_points": ctx.counters.get("abort_points", 0)}
+        ctx.section("abort", evaluations=ctx.evals - e0,
+                    injection_points=ctx.counters.get("abort_points", 0))
     if want("subclass"):
         e0 = ctx.evals
         pool = [[("c", p)] for n in (1, 2, 3) for p in R.perms(n)]
@@ -855,6 +1013,11 @@ def replay(ctx, rec):
     sub, case = rec["sub"], rec["case"]
     if sub == "class":
         check_class(ctx, case["basis"], case["N"], case["variant"], in_upto=case["N"])
+    elif sub == "abort":
+        part = shard_abort((case["basis"], case["warm"], tuple(case["query"]), case["N"]))
+        for v in part.viols:
+            if v["case"]["abort_at_call"] == case["abort_at_call"]:
+                ctx.violation(v["sub"], v["case"], v["detail"], sig=v["sig"])
     elif sub == "forms":
         check_form(ctx, case["basis"], case["form"], case["entry"], case["N"])
     elif sub == "deep":
